@@ -30,6 +30,10 @@ class SxStr(metaclass=StrShim):
     def __new__(cls, x='', *a, **k):
         if type(x) is Text:
             return x
+        if (a or k) and hasattr(x, 'to_rope'):           # str(memoryview / bytearray model, encoding)
+            x = x.to_rope()
+        if (a or k) and rope.isrope(x):                  # str(b, 'utf-8') decodes
+            return decode(x, *a[:1])
         if core.is_sym(x) or rope.isrope(x):
             return '<sym>'
         return _str(x, *a, **k)
